@@ -13,7 +13,9 @@
    34 is the double quote, 39 the single quote, 47 the slash, 61 the equals sign. *)
 From Coq Require Import List NArith ZArith Bool Permutation.
 From JV Require Import Msg CliModel CliLemmas CliInv CliProofs CliHist CliSend CliFed CliNoStop CliSendLog SameResultsCli SameResultsBridge.
-From JV Require Import Bytes QStr Query QueryProofs HttpChan HttpChanProofs SameResults.
+From JV Require Json Wire Bridge BridgeProofs.
+From JV Require JsonCompact.
+From JV Require Import Bytes QStr Query QueryProofs GetterMore HttpChan HttpChanProofs SameResults SameResultsDirect.
 Import ListNotations.
 Local Open Scope N_scope.
 
@@ -124,6 +126,89 @@ Theorem c19_getter_status_codes : forall p srv,
   In (fst (getter_status p srv)) [200; 400; 404; 500]%Z.
 Proof. exact getter_status_codes. Qed.
 Print Assumptions c19_getter_status_codes.
+
+(* THE BYTES the Getter writes (http/GetterMore.v).  [getter_reply p perr o srv]: what writeJSON sends for the
+   parser result p (perr = err.Error() of the parser's error), the call result [srv m ps] WITH its payload
+   (CROk result | CRErr error object | CRFail (json.Marshal of any other Go error value)): [HJson st bits] = status
+   st, Content-Type application/json, body bits = json.Marshal of the value ({"code":..,"message":..,"data":..} for
+   an error: Wire.marshal_error; the compacted result: Json.compact) or [HFallback] = writeJSON's fallback when
+   json.Marshal fails (500, text/plain).  [abs_srv srv] forgets the payloads (the call_result of c19_getter_status).
+
+   Status, over all inputs: whenever JSON is written its status is the one c19_getter_status(_any_parser) gives,
+   and the bytes render that abstract body. *)
+Theorem c19_getter_bytes_status : forall p perr o srv st bits,
+  getter_reply p perr o srv = HJson st bits ->
+  st = fst (getter_status p (abs_srv srv)) /\ renders (snd (getter_status p (abs_srv srv))) bits /\ In st [200; 400; 404; 500]%Z.
+Proof. exact getter_reply_refines. Qed.
+Print Assumptions c19_getter_bytes_status.
+
+(* ALWAYS VALID JSON, for every parser result and every call result, whatever the result text is.
+   [srv_json srv]: the data of an error object, if any, are one JSON value that fits one container deep (they
+   arrived two deep in a response record); json.Marshal of another Go error value yields JSON (encoding/json's
+   contract).  Nothing is assumed of a result: if json.Marshal(RawMessage) accepts it, what it writes is JSON
+   (c19_compact_valid).  [Json.valid] = json.Valid, nesting limit included. *)
+Theorem c19_getter_always_valid_json : forall p perr o srv st bits,
+  srv_json srv -> (forall t, o = Some t -> Json.valid t = true) ->
+  getter_reply p perr o srv = HJson st bits -> Json.valid bits = true.
+Proof. exact getter_reply_valid. Qed.
+Print Assumptions c19_getter_always_valid_json.
+
+(* ... and the text/plain fallback is unreachable when every value to write marshals ([srv_marshals]: results and
+   error data are valid JSON, other errors marshal) and the parameters were marshalable (always, for ParseQuery/ParseBasic) *)
+Theorem c19_getter_no_fallback : forall p perr o srv,
+  srv_marshals srv -> (match p with PROk _ ps => params_marshalable ps = true | PRErr => True end) ->
+  exists st bits, getter_reply p perr o srv = HJson st bits.
+Proof. exact getter_reply_no_fallback. Qed.
+Print Assumptions c19_getter_no_fallback.
+
+(* per status, for Getter + ParseQuery: 400 + the ParseError object carrying the parser's message / 200 + the
+   compacted result / 404 or 500 + the error object / 500 + the marshalled other error; each valid JSON *)
+Theorem c19_getter_bytes_rules : forall r perr o srv,
+  srv_json srv -> srv_marshals srv ->
+  match parse_query r with
+  | PRErr => exists b, getter_reply (parse_query r) perr o srv = HJson 400%Z b /\ Json.valid b = true /\
+                       Wire.unmarshal_error b = (Some {| we_code := (-32700)%Z; we_msg := readback perr; we_data := [] |}, true)
+  | PROk m ps =>
+    match srv m ps with
+    | CROk res => exists b, getter_reply (parse_query r) perr o srv = HJson 200%Z b /\ Json.valid b = true /\ Json.compact res = Some b
+    | CRErr e => exists b, getter_reply (parse_query r) perr o srv = HJson (if (we_code e =? -32601)%Z then 404 else 500)%Z b /\
+                           Json.valid b = true /\ Wire.marshal_error e = Some b
+    | CRFail t => exists b, getter_reply (parse_query r) perr o srv = HJson 500%Z b /\ Json.valid b = true /\ t = Some b
+    end
+  end.
+Proof. exact getter_bytes_rules. Qed.
+Print Assumptions c19_getter_bytes_rules.
+
+(* json.Compact / json.Marshal(json.RawMessage) (Json.compact: white space dropped; <, >, &, U+2028, U+2029
+   escaped inside strings) maps valid JSON to valid JSON, and one value at nesting depth d to one value at depth d *)
+Theorem c19_compact_valid : forall s q, Json.compact s = Some q -> Json.valid q = true /\ Json.tight_at 0 q = true.
+Proof. exact JsonCompact.compact_valid. Qed.
+Print Assumptions c19_compact_valid.
+
+Theorem c19_compact_tight : forall d s, Json.tight_at d s = true ->
+  exists q, Json.compact s = Some q /\ Json.tight_at d q = true.
+Proof. exact JsonCompact.compact_tight. Qed.
+Print Assumptions c19_compact_tight.
+
+(* each request maps to ONE JSON-RPC call, and to none when the parser rejects it: the reply depends on the
+   server behind the getter only through the result of the call (method, params) the parser produced *)
+Theorem c19_getter_one_call : forall p perr o srv1 srv2,
+  (match p with PRErr => True | PROk m ps => srv1 m ps = srv2 m ps end) ->
+  getter_reply p perr o srv1 = getter_reply p perr o srv2.
+Proof. exact getter_call_locality. Qed.
+Print Assumptions c19_getter_one_call.
+
+(* every error object whose data fit is valid JSON; the 400 body needs no hypothesis at all *)
+Theorem c19_error_object_valid_json : forall e b,
+  data_fits e -> Wire.marshal_error e = Some b -> Json.valid b = true.
+Proof. exact marshal_error_valid. Qed.
+Print Assumptions c19_error_object_valid_json.
+
+Theorem c19_getter_400_body : forall perr,
+  exists b, Wire.marshal_error (parse_error_obj perr) = Some b /\ Json.valid b = true /\
+    Wire.unmarshal_error b = (Some {| we_code := ParseError; we_msg := readback perr; we_data := [] |}, true).
+Proof. exact parse_error_body. Qed.
+Print Assumptions c19_getter_400_body.
 
 Local Close Scope N_scope.
 
@@ -274,6 +359,65 @@ Theorem c19_same_results_any_peer : forall body htr hs c1 tr1 s1 c2 tr2 s2,
     /\ (forall rs1 rs2, In (ORet n (RetBatch rs1)) (hist s1) -> In (ORet n (RetBatch rs2)) (hist s2) -> rs1 = rs2).
 Proof. exact same_results_cli. Qed.
 Print Assumptions c19_same_results_any_peer.
+
+(* A REAL DIRECT CONNECTION (http/SameResultsDirect.v).  [direct_answer inner next req]: the record a jrpc2.Server
+   with the same handlers sends for the request record req on a plain channel: members answered by [inner] as
+   behind the Bridge, under the ids AS SENT, in REQUEST order (invalid members at their position), notifications
+   silent, an array iff the request was a batch or the replies are not exactly one, and NO record at all (None)
+   when there is nothing to report; [direct_members] = its members ([] when no record).
+   For every decodable non-empty request record: the Bridge's answer has the same members up to order (same id
+   text, same result/error each; the Bridge puts static errors first); the SAME LIST when no member is statically
+   invalid (every record a client sends); 204 iff the direct server sends no record, 200 iff it sends one; the
+   forms differ exactly as stated (a batch of one call is a single object over HTTP). *)
+Theorem c19_direct_vs_bridge : forall inner next b ms,
+  BridgeProofs.inner_ok inner -> ms <> [] ->
+  exists st body,
+    bridge_answer inner next (InMsgs b ms) = Some (st, body) /\
+    Permutation (body_msgs body) (direct_members inner next (InMsgs b ms)) /\
+    Permutation (map id_body (body_msgs body)) (map id_body (direct_members inner next (InMsgs b ms))) /\
+    ((forall m, In m ms -> j_err m = None) -> body_msgs body = direct_members inner next (InMsgs b ms)) /\
+    (st = 204%Z <-> direct_answer inner next (InMsgs b ms) = None) /\
+    (st = 200%Z <-> exists r, direct_answer inner next (InMsgs b ms) = Some r /\ body_msgs r <> []) /\
+    (forall r, direct_answer inner next (InMsgs b ms) = Some r ->
+       r = InMsgs (b || negb (Nat.eqb (length (body_msgs r)) 1)) (body_msgs r)) /\
+    body = InMsgs (Nat.leb 2 (length (body_msgs body))) (body_msgs body).
+Proof. exact direct_vs_bridge. Qed.
+Print Assumptions c19_direct_vs_bridge.
+
+(* every record the client puts on the transport has at least one member (Batch with no specs fails before Send) *)
+Theorem c19_sent_records_nonempty : forall c tr s, traces_to c tr s ->
+  forall n, In n (sendlog (init_of c) tr) -> exists o, op_at s n = Some o /\ o_specs o <> [].
+Proof. exact sendlog_nonempty. Qed.
+Print Assumptions c19_sent_records_nonempty.
+
+(* SAME RESULTS AS OVER A DIRECT CONNECTION, the direct run being fed what a direct SERVER sends.
+   [answered_by_bridge_with inner next bflag c1 tr1 s1 htr body] = sends_answered_by_bridge with its witnesses
+   named; [direct_server_feeds inner next bflag c1 tr1 s1]: for the records the client sent over the channel, in
+   the order it sent them, the record [direct_answer] gives for each (same handlers, ids as sent) - skipping those
+   for which a server sends nothing.  tr2 is ANY run of the client model fed exactly these. *)
+Theorem c19_same_results_direct_server : forall inner next bflag body htr hs c1 tr1 s1 c2 tr2 s2,
+  HttpChan.run HttpChan.init htr = Some hs -> ~ In HClose htr -> forallb is_done (gs hs) = true ->
+  traces_to c1 tr1 s1 -> traces_to c2 tr2 s2 ->
+  feeds tr1 = http_feeds body htr ->
+  answered_by_bridge_with inner next bflag c1 tr1 s1 htr body ->
+  feeds tr2 = direct_server_feeds inner next bflag c1 tr1 s1 ->
+  Forall not_close tr1 -> Forall not_close tr2 ->
+  forall n o1 o2, op_at s1 n = Some o1 -> op_at s2 n = Some o2 ->
+    o_ctx o1 = None -> o_ctx o2 = None ->
+    op_ids s1 n = op_ids s2 n ->
+    (forall r1 r2, In (ORet n (RetCall r1)) (hist s1) -> In (ORet n (RetCall r2)) (hist s2) -> r1 = r2)
+    /\ (forall rs1 rs2, In (ORet n (RetBatch rs1)) (hist s1) -> In (ORet n (RetBatch rs2)) (hist s2) -> rs1 = rs2).
+Proof. exact same_results_direct_server. Qed.
+Print Assumptions c19_same_results_direct_server.
+
+(* every record of the direct server's stream is one of the reply records Recv yielded over the channel *)
+Theorem c19_direct_records_among_http : forall inner next bflag c tr s htr hs body,
+  traces_to c tr s ->
+  HttpChan.run HttpChan.init htr = Some hs -> ~ In HClose htr -> forallb is_done (gs hs) = true ->
+  answered_by_bridge_with inner next bflag c tr s htr body ->
+  forall ms, In ms (recs_of (direct_server_feeds inner next bflag c tr s)) -> In ms (recs_of (http_feeds body htr)).
+Proof. exact direct_records_among_http. Qed.
+Print Assumptions c19_direct_records_among_http.
 
 (* The premise `order_irrelevant` of the abstract theorem below, discharged for the client model: two runs, the
    records fed in the second all occur among those fed in the first (e.g. any permutation, regrouping aside), the
